@@ -194,4 +194,17 @@ PROPS = {
         "trusted_base": ["the verified root counter (Model/RootCount) answers `none` when its fuel is exhausted; such cases are counted as skipped"],
         "assumptions": ["degree <= 9"],
     },
+    "C07": {
+        "level": "proof",
+        "lean_targets": ["LP.Props.C07"],
+        "harnesses": [{"name": "h_alg", "quick": 400, "thorough": 8000}],
+        "select": lambda t: t[1] == "alg",
+        "nontrivial": lambda t, r: True,
+        "rule": "pools of real algebraic numbers per case: all real roots (conjugates included) of quadratic / cubic blocks, dyadic "
+                "points, rationals disguised as algebraic (q*x-p), dyadic neighbours at distance 2^-3..2^-33 of pool members, and results of "
+                "earlier operations (degree <= 4); add, sub, mul, div, neg, inv, pow 0-4, positive root 2-4, cmp (number, integer, dyadic, "
+                "rational), sgn, floor, ceiling, is_integer, is_rational + to_rational, to_double. Every line is non-trivial.",
+        "trusted_base": ["the eliminant of x+y, x*y, x^n is computed by the model as a Sylvester determinant (C04 reference); that it vanishes at the exact value is the classical resultant property, not formalised"],
+        "assumptions": ["operands with deg f + deg g <= 7 (larger eliminants are skipped and counted)"],
+    },
 }
